@@ -7,6 +7,17 @@ register("C15",
     "Trusted: clang 14 AST/CFG; reviewed exception tables under tables/ (each entry with a reason); exceptional (throwing) paths are out of scope.",
     "custom dataflow / typestate lints over the type-resolved clang AST, CFG and call graph (libTooling extractor + Python rules)",
     "DESIGN.md §5 C15")
+register("C16",
+    "Near-complete for the stated domain: the decision tree of every geometry predicate (vecDir, segmentIntersect, pointOnLine, "
+    "inBetween, colinear, inValidRegion, cornerSide, segmentShapeIntersect, segmentIntersectPoint classification, inPoly, inPolyGen, "
+    "libvpsc LineSegment::Intersect) is extracted by symbolic interpretation of its syntax tree (coordinates are polynomial symbols, "
+    "branches are signs of integer polynomials) and shown equal to an independent exact-arithmetic definition on every realisable sign "
+    "class of an integer grid, all degenerate configurations included. Intersection *coordinates* (rounded rationals) are not decided.",
+    "Trusted: the interpreter (engine/microai), the reference definitions in engine/props/c16.py, integer-valued inputs (a tolerance |t|<1 "
+    "folds into the sign atoms), polygon sizes n=3,4; grid side 4-6 decides realisability.",
+    "abstract interpretation of the clang AST over a sign-atom domain (path-enumerating symbolic evaluation, no execution), decision-table "
+    "equivalence against exact reference predicates",
+    "DESIGN.md §5 C16")
 for _p, _r in {
  "C06": "equality of route costs between an incrementally edited router and a fresh one quantifies over run-time visibility-graph contents after arbitrary edit histories; no rule over code shape is a necessary condition of it",
  "C12": "tree-ness and terminal preservation of hyperedges are invariants of dynamically rewritten run-time graphs; not visible in code shape",
